@@ -55,6 +55,10 @@ MUTANTS = [
          old="            random_state=rng,\n            **tl.context(tensor),\n        )", new="            **tl.context(tensor),\n        )"),
     dict(id="m16_cp_svd_init_unseeded", prop="C16", file="tensorly/decomposition/_cp.py", note="revert of fix: SVD init does not forward random_state",
          old="                n_iter_mask_imputation=svd_mask_repeats,\n                random_state=rng,\n", new="                n_iter_mask_imputation=svd_mask_repeats,\n"),
+    dict(id="m16_tucker_random_init_scoped_global", prop="C16", file="tensorly/decomposition/_tucker.py",
+         note="random tucker init seeds the GLOBAL generator, draws everything in one block of lines that makes no backend call, and restores the global state: only interference between those source lines exposes it",
+         old="        rng = tl.check_random_state(random_state)\n        core = tl.tensor(\n            rng.random_sample([rank[index] for index in range(len(modes))]) + 0.01,",
+         new="        rng = tl.check_random_state(random_state)\n        if isinstance(random_state, int):\n            import numpy as _np\n\n            _saved = _np.random.get_state()\n            _np.random.seed(random_state)\n            _n = sum(tensor.shape[mode] * rank[index] for index, mode in enumerate(modes))\n            _n += int(_np.prod([rank[index] for index in range(len(modes))]))\n            _draws = _np.random.random_sample(_n)\n            _np.random.set_state(_saved)\n\n            class _Replay:\n                def __init__(self, d):\n                    self.d, self.i = d, 0\n\n                def random_sample(self, shape):\n                    k = int(_np.prod(shape))\n                    out = self.d[self.i : self.i + k].reshape(shape)\n                    self.i += k\n                    return out\n\n            rng = _Replay(_draws)\n        core = tl.tensor(\n            rng.random_sample([rank[index] for index in range(len(modes))]) + 0.01,"),
     dict(id="m16_random_cp_orthogonal_global", prop="C16", file="tensorly/random/base.py", note="random_cp(orthogonal=True) uses the global RNG for its QR seed matrix",
          old=None, new=None, dynamic="random_cp_orth"),
     # ------------------------------------------------------------------ C15
